@@ -48,6 +48,8 @@ class BlocksScenario:
         self.filters = filters or {}
         self.pe, self.pr = _points()
         self.n_events = 0
+        self.n_draws = 0
+        self.draw = lambda bound, k: 0  # what randrange(bound) answers at the k-th draw
 
     # ------------------------------------------------------------------
     def hook(self, call: ast.Call, fname: Optional[str], fval: Optional[V], args: List[V], kwargs: Dict[str, V], st: State) -> Optional[V]:
@@ -75,6 +77,14 @@ class BlocksScenario:
             return R("opaque", what=K("random.Random()"))
         if d.startswith("logging.") or (meth in ("exception", "error", "warning", "info", "debug") and not isinstance(fval, (S, Ref))):
             return R("opaque", what=K("logging"))
+        if isinstance(fval, R) and fval.kind == "opaque" and fval.fields.get("what") == K("random.Random()") and meth in ("randrange", "randint", "random", "getrandbits", "choice"):
+            # the tracer's own generator: the scenario scripts what it answers (self.draw: upper bound -> value)
+            self.n_draws += 1
+            if meth == "randrange" and len(args) == 1 and isinstance(args[0], K) and isinstance(args[0].v, int):
+                return K(self.draw(args[0].v, self.n_draws))
+            if meth == "random":
+                return K(0.999999 if self.draw(2, self.n_draws) else 0.0)
+            return None
         if isinstance(fval, R) and fval.kind == "opaque":
             return K(None)
         callee = None
@@ -217,6 +227,8 @@ class ConfiguredBlock(BlocksScenario):
         self.pe, self.pr = _points()
         self.n_events = 0
         self.rng_seeds: List[Tuple[Any, ...]] = []
+        self.n_draws = 0
+        self.draw = lambda bound, k: 0
         self.stored: List[V] = []
         base_name = self.ri.on_name
         def on_name(name: str, st: State) -> Optional[V]:
